@@ -21,6 +21,9 @@ impl Clone for HctlToken { #[verifier::external_body] fn clone(&self) -> (r: Sel
 impl Clone for HctlTreeNode { #[verifier::external_body] fn clone(&self) -> (r: Self) ensures r == *self { unimplemented!() } }
 impl PartialEq for HctlToken { #[verifier::external_body] fn eq(&self, o: &Self) -> (r: bool) ensures r <==> *self == *o { unimplemented!() } }
 impl PartialEq for HctlTreeNode { #[verifier::external_body] fn eq(&self, o: &Self) -> (r: bool) ensures r <==> *self == *o { unimplemented!() } }
+impl PartialEq for UnaryOp { #[verifier::external_body] fn eq(&self, o: &Self) -> (r: bool) ensures r <==> *self == *o { unimplemented!() } }
+impl PartialEq for BinaryOp { #[verifier::external_body] fn eq(&self, o: &Self) -> (r: bool) ensures r <==> *self == *o { unimplemented!() } }
+impl PartialEq for Atomic { #[verifier::external_body] fn eq(&self, o: &Self) -> (r: bool) ensures r <==> *self == *o { unimplemented!() } }
 impl PartialEq for HybridOp { #[verifier::external_body] fn eq(&self, o: &Self) -> (r: bool) ensures r <==> *self == *o { unimplemented!() } }
 
 pub enum SAtom { Prop(Seq<char>), Var(Seq<char>), True, False, Wild(Seq<char>) }
